@@ -124,7 +124,8 @@ class ClassInfo(object):
         return "<Class %s>" % self.qualname
 
 
-INLINE_PREFIXES = ("conducting", "machines", "specs", "composers", "expressions", "graphing")
+INLINE_PREFIXES = ("conducting", "machines", "specs", "composers", "expressions", "graphing",
+                   "events", "statuses", "utils")
 
 
 class Module(object):
@@ -610,8 +611,36 @@ class Program(object):
                     args = [f(a) for a in node.args]
                     if isinstance(s, str) and not any(isinstance(a, Opaque) for a in args):
                         return s.format(*args)
+            # a module-level helper that builds a constant (see sa.pureeval)
+            target = None
+            if isinstance(fn, ast.Name) and fn.id not in env:
+                target = self.resolve_function_name(module, fn.id)
+            elif isinstance(fn, ast.Attribute) and isinstance(fn.value, (ast.Name, ast.Attribute)):
+                base = self.resolve_name_expr(fn.value, module)
+                if isinstance(base, Module) and fn.attr in base.functions:
+                    target = base.functions[fn.attr]
+            if target is not None and not any(isinstance(a, ast.Starred) for a in node.args) \
+                    and not any(k.arg is None for k in node.keywords):
+                from sa.pureeval import PureEval
+                args = [f(a) for a in node.args]
+                kwargs = {k.arg: f(k.value) for k in node.keywords}
+                if any(isinstance(a, Opaque) for a in args + list(kwargs.values())):
+                    raise NotFoldable("opaque argument")
+                return PureEval(self, target.module).call(target.node, args, kwargs)
             raise NotFoldable("call %s" % unparse(node))
         raise NotFoldable(type(node).__name__)
+
+    def resolve_function_name(self, module, name):
+        """Module-level function `name` visible in `module` (defined there or imported)."""
+        if name in module.functions:
+            return module.functions[name]
+        if name in module.imports:
+            tgt = module.imports[name]
+            if tgt[0] == "attr":
+                m = self.modules.get(tgt[1]) or self.modules.get("orquesta." + tgt[1])
+                if m is not None and tgt[2] in m.functions:
+                    return m.functions[tgt[2]]
+        return None
 
     # ------------------------------------------------------------------ convenience
     def fold_name(self, short_module, name, partial=False):
@@ -780,3 +809,16 @@ def subst_locals(fnode, expr, depth=6):
             break
         out = T().visit(copy.deepcopy(out))
     return out
+
+
+_TAG_RE = re.compile(r"__i\d+(?=\b|_)")
+
+
+def untag(text):
+    """`text` without the `__<helper><n>` suffixes the inlining pass appends to renamed locals
+    (so that name-based heuristics do not match words of a helper's name)."""
+    prev = None
+    while prev != text:
+        prev = text
+        text = _TAG_RE.sub("", text)
+    return text
